@@ -65,7 +65,10 @@ class DataStreamProcessor:
             res_iter = (ResourceWrapper(self.get_res(current_dp, rw.res.name), rw.it)
                         for rw in res_iter_)
             res_iter = self.process_resources(res_iter)
-            res_iter = (it if isinstance(it, ResourceWrapper) else ResourceWrapper(res, it)
+            # the n-th stream belongs to the n-th declared resource, also when a step passed it on
+            # as it came (still wrapped with the descriptor it had before this step)
+            res_iter = (it if res is None
+                        else ResourceWrapper(res, it.it if isinstance(it, ResourceWrapper) else it)
                         for res, it
                         in itertools.zip_longest(self.datapackage.resources, res_iter))
             return res_iter
